@@ -19,7 +19,7 @@ func init() {
 		Explain: "Decides per-agent necessary conditions of flood termination for every Flooder entry point that forwards a received frame: " +
 			"the seen-cache test and insertion form one write-locked region keyed by the (origin, number) that is forwarded, every route store, forward and 'new' result is dominated by the not-seen edge and by the local id not being in the received seen-by list, " +
 			"every flooded message carries the received seen-by list plus the local id, and the forwarding loop sends once per peer and skips the sender and every peer already in the list. " +
-			"The graph-quantified message bound, duplicate suppression for sibling copies after cache expiry, and the loop rejection inside AddRoute (C10.R2) are not decided here.",
+			"The graph-quantified message bound, duplicate suppression for sibling copies after cache expiry, are not decided here; the self-in-path rejection of the four AddRoute methods is (R5): every table write, including the replacement of an existing entry, is dominated by the path scan.",
 		Run: runC11,
 		SelfTests: []SelfTest{
 			{Name: "seen-cache insertion in a second critical section", ExpectRule: "C11.R1", ExpectKey: "HandleRouteWithdraw", Edits: []Edit{
@@ -36,7 +36,7 @@ func init() {
 				{File: "internal/flood/flood.go", Old: "\t\tOriginAgent: originAgent,\n\t\tSequence:    sequence,\n\t}\n\n\t// Check if we've already seen this and mark as seen atomically\n\tf.mu.Lock()\n", New: "\t\tOriginAgent: fromPeer,\n\t\tSequence:    sequence,\n\t}\n\n\t// Check if we've already seen this and mark as seen atomically\n\tf.mu.Lock()\n"},
 			}},
 			{Name: "sleep command result inverted", ExpectRule: "C11.R1", ExpectKey: "HandleSleepCommand", Edits: []Edit{
-				{File: "internal/flood/flood.go", Old: "func (f *Flooder) HandleSleepCommand(fromPeer identity.AgentID, cmd *protocol.SleepCommand) bool {\n\tif !f.markSleepCmdSeen(", New: "func (f *Flooder) HandleSleepCommand(fromPeer identity.AgentID, cmd *protocol.SleepCommand) bool {\n\tif f.markSleepCmdSeen("},
+				{File: "internal/flood/flood.go", Old: "\t// (origin, id) and fill the cache with unauthenticated entries.\n\tif !f.markSleepCmdSeen(", New: "\t// (origin, id) and fill the cache with unauthenticated entries.\n\tif f.markSleepCmdSeen("},
 			}},
 			{Name: "self-in-seen-by test dropped from withdraw", ExpectRule: "C11.R2", ExpectKey: "HandleRouteWithdraw", Edits: []Edit{
 				{File: "internal/flood/flood.go", Old: "\t// Check loop detection\n\tif containsAgent(seenBy, f.localID) {\n\t\treturn false\n\t}\n", New: ""},
@@ -61,6 +61,22 @@ func init() {
 			}},
 			{Name: "retry sends a second copy to the same peer", ExpectRule: "C11.R4", Edits: []Edit{
 				{File: "internal/flood/flood.go", Old: "\t\tif err := f.sender.SendToPeer(peerID, frame); err != nil {\n\t\t\tf.logger.Debug(logMsg,", New: "\t\tif err := f.sender.SendToPeer(peerID, frame); err != nil {\n\t\t\t_ = f.sender.SendToPeer(peerID, frame)\n\t\t\tf.logger.Debug(logMsg,"},
+			}},
+			{Name: "self-in-path scan only before inserting a new CIDR route (seed C11-a)", ExpectRule: "C11.R5", ExpectKey: "(*routing.Table).AddRoute", Edits: []Edit{
+				{File: "internal/routing/table.go", Old: "\t// Check for routing loops (is our ID in the path?)\n\tfor _, id := range route.Path {\n\t\tif id == t.localID {\n\t\t\treturn false // Loop detected\n\t\t}\n\t}\n\n\tkey := route.Network.String()", New: "\tkey := route.Network.String()"},
+				{File: "internal/routing/table.go", Old: "\t// New route from this origin\n\tcloned := route.Clone()", New: "\tfor _, id := range route.Path {\n\t\tif id == t.localID {\n\t\t\treturn false\n\t\t}\n\t}\n\tcloned := route.Clone()"},
+			}},
+			{Name: "self-in-path scan compares the next hop", ExpectRule: "C11.R5", ExpectKey: "(*routing.ForwardTable).AddRoute", Edits: []Edit{
+				{File: "internal/routing/forward.go", Old: "\tfor _, id := range route.Path {\n\t\tif id == t.localID {", New: "\tfor _, id := range route.Path {\n\t\tif id == route.NextHop {"},
+			}},
+			{Name: "self-in-path scan skipped for short paths", ExpectRule: "C11.R5", ExpectKey: "(*routing.AgentTable).AddRoute", Edits: []Edit{
+				{File: "internal/routing/agent.go", Old: "\t// Check for routing loops (is our ID in the path?)\n\tfor _, id := range route.Path {\n\t\tif id == t.localID {\n\t\t\treturn false // Loop detected\n\t\t}\n\t}\n", New: "\tif len(route.Path) > 2 {\n\t\tfor _, id := range route.Path {\n\t\t\tif id == t.localID {\n\t\t\t\treturn false\n\t\t\t}\n\t\t}\n\t}\n"},
+			}},
+			{Name: "self-in-path hit only logged", ExpectRule: "C11.R5", ExpectKey: "(*routing.DomainTable).AddRoute", Edits: []Edit{
+				{File: "internal/routing/domain.go", Old: "\tfor _, id := range route.Path {\n\t\tif id == t.localID {\n\t\t\treturn false // Loop detected\n\t\t}\n\t}\n", New: "\tlooped := false\n\tfor _, id := range route.Path {\n\t\tif id == t.localID {\n\t\t\tlooped = true\n\t\t}\n\t}\n\t_ = looped\n"},
+			}},
+			{Name: "rewrite: self-in-path scan under the lock, swapped operands", Edits: []Edit{
+				{File: "internal/routing/forward.go", Old: "\t// Check for routing loops (is our ID in the path?)\n\tfor _, id := range route.Path {\n\t\tif id == t.localID {\n\t\t\treturn false // Loop detected\n\t\t}\n\t}\n\n\tt.mu.Lock()\n\tdefer t.mu.Unlock()\n", New: "\tt.mu.Lock()\n\tdefer t.mu.Unlock()\n\n\tfor i := range route.Path {\n\t\tif t.localID != route.Path[i] {\n\t\t\tcontinue\n\t\t}\n\t\treturn false\n\t}\n"},
 			}},
 			{Name: "rewrite: nested positive form, negated membership, swapped operands", Edits: []Edit{
 				{File: "internal/flood/flood.go", Old: "\t\tif peerID == fromPeer || containsAgent(seenBy, peerID) {\n\t\t\tcontinue\n\t\t}\n\t\tif err := f.sender.SendToPeer(peerID, frame); err != nil {\n\t\t\tf.logger.Debug(logMsg,\n\t\t\t\tlogging.KeyPeerID, peerID.ShortString(),\n\t\t\t\tlogging.KeyError, err)\n\t\t}", New: "\t\tif fromPeer != peerID && !containsAgent(seenBy, peerID) {\n\t\t\tif err := f.sender.SendToPeer(peerID, frame); err != nil {\n\t\t\t\tf.logger.Debug(logMsg,\n\t\t\t\t\tlogging.KeyPeerID, peerID.ShortString(),\n\t\t\t\t\tlogging.KeyError, err)\n\t\t\t}\n\t\t}"},
@@ -805,6 +821,7 @@ func runC11(p *kit.Program, r *kit.Report) {
 	r.Rule("C11.R1", "process once: in every receive entry point the seen-cache lookup and insertion use one key, lie in one write-locked region, the insertion happens only on the not-found edge, the key is the (origin, number) pair of the message that is forwarded, and every route store, forward and 'new' result is dominated by the first-sighting edge")
 	r.Rule("C11.R2", "expiry-proof: the same effects are dominated by the false edge of a membership test of the local id in the received seen-by list")
 	r.Rule("C11.R3", "every flooded message literal carries the local id in SeenBy; a forwarded one carries the received seen-by list as well")
+	r.Rule("C11.R5", "no route through self: in every AddRoute method of the routing tables each table write (map insert, slot replacement, field store into a stored record) is dominated by the loop that scans route.Path for the table's own id, and is unreachable from its reject edge")
 	r.Rule("C11.R4", "the forwarding loop calls SendToPeer exactly once, inside a single loop over GetPeerIDs(), only for peers different from the sender and not in the seen-by list")
 	cx := newC11Flood(p, r)
 	if cx == nil {
@@ -840,7 +857,11 @@ func runC11(p *kit.Program, r *kit.Report) {
 		// ---------------- R1
 		d := c11FindDedup(cx, h)
 		if d == nil {
-			r.Violation("C11.R1", hn+" dedup", pos, "no seen-cache lookup with insertion on the receive path: a duplicated frame is processed and forwarded again")
+			msg := "no seen-cache lookup with insertion on the receive path: a duplicated frame is processed and forwarded again"
+			if c11SplitDedup(cx, h) {
+				msg = "the seen-cache lookup and the insertion live in different functions (hence different critical sections): between a lookup that finds nothing and the insertion, a concurrent delivery of the same frame also finds nothing, and both are processed and forwarded"
+			}
+			r.Violation("C11.R1", hn+" dedup", pos, "%s", msg)
 		} else {
 			dpos := p.Pos(d.lookup.Pos())
 			// one key
@@ -999,6 +1020,36 @@ func runC11(p *kit.Program, r *kit.Report) {
 				"the frame is sent straight back over the link it arrived on whenever the sender is missing from the seen-by list (replays, queued state): twice the messages per link")
 		}
 	}
+
+	// ---------------- R5
+	g4SelfInPath(p, cx, r, "C11.R5")
+}
+
+// c11SplitDedup: the entry point (with its flood callees) both probes and fills a seen cache, but
+// never in one function.
+func c11SplitDedup(cx *c11Flood, h *ssa.Function) bool {
+	look, ins := false, false
+	fns := []*ssa.Function{h}
+	for _, c := range kit.Calls(h) {
+		if cal := kit.CalleeOf(c); cal.Static != nil && kit.FuncPkgPath(cal.Static) == kit.PkgPath(c11FloodPkg) && !cx.reach[cal.Static] {
+			fns = append(fns, cal.Static)
+		}
+	}
+	for _, fn := range fns {
+		kit.Instrs(fn, func(in ssa.Instruction) {
+			switch x := in.(type) {
+			case *ssa.Lookup:
+				if f, _ := kit.LoadedField(x.X); f != nil && cx.seenMaps[f] {
+					look = true
+				}
+			case *ssa.MapUpdate:
+				if f, _ := kit.LoadedField(x.Map); f != nil && cx.seenMaps[f] {
+					ins = true
+				}
+			}
+		})
+	}
+	return look && ins
 }
 
 // c11ExtractOf returns the Extract of index idx of a tuple-valued instruction.
